@@ -17,6 +17,11 @@ def run(ctx):
         name = "conc-free-g%d-p%d" % (g, procs)
         tr = ctx.record(name, "conc", ["-g", g, "-procs", procs, "-iters", iters], race=True, timeout=1800)
         ctx.validate(name + "-validate", "trace/Trace_Conc.tla", "trace/Trace_Conc.cfg", tr, "conc")
+    # deeply nested shared trees evaluated by all goroutines at the same time (no race detector: its shadow stack is the limit)
+    for g, depth, iters in [(16, 3000, 400)] + ([(64, 2000, 100)] if th else []):
+        name = "conc-deep-g%d-d%d" % (g, depth)
+        tr = ctx.record(name, "conc", ["-g", g, "-procs", 16, "-iters", iters, "-deep", depth], timeout=1800)
+        ctx.validate(name + "-validate", "trace/Trace_Conc.tla", "trace/Trace_Conc.cfg", tr, "conc")
     return ctx.finish(
         rule="every complete schedule of 2 goroutines x 5 gates (252), 2 x 6 (924) and 3 x 3 (1680)%s executed with a blocking hook under "
              "the race detector; free-running goroutines (G = 2, 4, 16; GOMAXPROCS 1, 2, 16) under the race detector with every distinct "
